@@ -160,6 +160,10 @@ func (s PresentationSubmission) Resolve(envelope Envelope) (map[string]vc.Verifi
 		if err != nil {
 			return nil, fmt.Errorf("unable to resolve credential for input descriptor '%s': %w", inputDescriptor.Id, err)
 		}
+		if _, exists := result[inputDescriptor.Id]; exists {
+			// a second mapping would silently replace the first one
+			return nil, fmt.Errorf("duplicate mapping for input descriptor '%s'", inputDescriptor.Id)
+		}
 		result[inputDescriptor.Id] = *resolvedCredential
 	}
 	return result, nil
